@@ -17,7 +17,7 @@ import numpy as np
 PROP = "C15"
 LEVEL = "exploration"
 VARIANTS = ("omp",)
-CASE_TIMEOUT = 600
+CASE_TIMEOUT = 1200
 RULE = ("histories over the alphabet {set FC full|compact, produce FC full|compact, symmetrize, symmetrize by space group, cutoff radius, NAC wang|gonze|none, "
         "masses, dataset (type 1), generate_displacements, copy()} : ALL histories of length <= 2 (quick) / <= 3 (thorough) from three initial states "
         "(no NAC, Wang, Gonze-Lee) on small cells, plus random histories of length 4..8; queries after each history: eigenvalues at 3 q (Gamma with direction when NAC), "
